@@ -594,7 +594,10 @@ def _judge(op, arg, r, std, alpha):
 def _show_calls(calls):
     names = {"to_short": "uuid_to_short_str", "from_short": "uuid_from_short_str",
              "from_short_nonstr": "uuid_from_short_str", "from_str": "uuid_from_str"}
-    return "; ".join(f"{names[op]}({arg!r})" for op, arg in calls)
+    shown = [f"{names[op]}({arg!r})" for op, arg in calls]
+    if len(shown) > 7:
+        shown = shown[:2] + [f"... {len(shown) - 5} more calls ..."] + shown[-3:]
+    return "; ".join(shown)
 
 
 def oracle(case, obs):
